@@ -32,6 +32,10 @@ LEVEL_TEXT = (
     "slice} followed by every sequence of 2 (thorough: 3) further operations from a list of 13, on 3 bases x 2 data sets.  "
     "Every second program is also chained with the same program over twin leaves (same names, other rows); calculations, sort "
     "terms and selections may use a user-defined column function that each engine registers with its own meaning."
+    "  The object returned by execute() is iterated twice; every third program is topped with a guard selection and "
+    "a selection only defined on the guarded rows (floor division); calculations may call a method of the value "
+    "(int.bit_length); one expression object using the engine-specific function is applied in both iteration "
+    "engines."
 )
 LEVEL_NOTE = "trusts: reference evaluator ev_list; assumes the documented key-column precondition (P1) - cases violating it at a deduplication are discarded and counted"
 RULE = (
